@@ -48,6 +48,12 @@ def reduce_evolve_exact(fi):
 
 
 
+def _tp_resolver(src):
+    """the job stand-ins of the thermal runs take the methods the runs do not replace from the source class"""
+    from .chain_rules import class_resolver
+    return class_resolver(src, {"ThermalProp": "renormalizer/mps/thermalprop.py"})
+
+
 def thermal_hamiltonian_rule(chk, src):
     """abstract run of the two propagation paths of ThermalProp: the generator is built from the Hamiltonian the job was asked to use (self.h_mpo),
     which is also the operator the energies (and the energy shift) are computed with"""
@@ -68,8 +74,8 @@ def thermal_hamiltonian_rule(chk, src):
             return p_
         tag.__dict__["exact_propagator"] = lambda model, *a, **k: used.append(("exact_propagator", model)) or _prop()
         from ..syminterp import OpenSym
-        it = SymInterp(src, None, {"Mpo": tag, "Quantity": lambda x: ("Quantity", x), "np": OpenSym("np", make=lambda t: Blob(t)), "xp": OpenSym("xp", make=lambda t: Blob(t))})
-        me = Sym("job", **{**src.init_defaults(TP, "ThermalProp"), "h_mpo": Sym("h_mpo", model="<requested model>"), "energies": [Blob("E0"), Blob("E_last")], "space": "GS"})
+        it = SymInterp(src, _tp_resolver(src), {"Mpo": tag, "Quantity": lambda x: ("Quantity", x), "np": OpenSym("np", make=lambda t: Blob(t)), "xp": OpenSym("xp", make=lambda t: Blob(t))})
+        me = Sym("job", _cls="ThermalProp", **{**src.init_defaults(TP, "ThermalProp"), "h_mpo": Sym("h_mpo", model="<requested model>"), "energies": [Blob("E0"), Blob("E_last")], "space": "GS"})
         state = Sym("old_mpdm", model="<model of the state>", evolve=lambda h, dt: Sym("evolved"))
         it.call_function(fi, [me, state, Blob("dt")])
         ok = len(used) == 1 and used[0][1] == "<requested model>"
@@ -102,9 +108,9 @@ def thermal_hamiltonian_rule(chk, src):
             return Sym("h_mpo", model=model)
     ns = MpoNS("Mpo")
     ns.__dict__["exact_propagator"] = lambda model, x, space="GS", shift=0.0: Prop(sp.expand(x * (H + shift)), model)
-    it = SymInterp(src, None, {"Mpo": ns, "Quantity": lambda x: x, "np": Sym("np", exp=sp.exp, iscomplex=lambda x: False), "xp": Sym("xp", exp=sp.exp)})
+    it = SymInterp(src, _tp_resolver(src), {"Mpo": ns, "Quantity": lambda x: x, "np": Sym("np", exp=sp.exp, iscomplex=lambda x: False), "xp": Sym("xp", exp=sp.exp)})
     e1, e2, t1, t2 = sp.Symbol("E1", real=True), sp.Symbol("E2", real=True), sp.Symbol("t1", positive=True), sp.Symbol("t2", positive=True)
-    me = Sym("job", h_mpo=Sym("h_mpo", model="<requested model>"), energies=[e1], space="GS", **{k: v for k, v in src.init_defaults(TP, "ThermalProp").items() if k not in ("h_mpo", "energies", "space")})
+    me = Sym("job", _cls="ThermalProp", h_mpo=Sym("h_mpo", model="<requested model>"), energies=[e1], space="GS", **{k: v for k, v in src.init_defaults(TP, "ThermalProp").items() if k not in ("h_mpo", "energies", "space")})
     state = Sym("old_mpdm", model="<model of the state>")
     applied = []
     it.call_function(fi, [me, state, Sym("dt1", imag=t1)])
@@ -488,8 +494,8 @@ def run(chk):
     state = Sym("old_mpdm", model="<model of the state>", evolve=evolve)
     for fi_, label in ((te, "evolve_exact"), (tp, "evolve_prop")):
         applied.clear()
-        it = SymInterp(src, None, {"Mpo": ns, "Quantity": lambda x, *a: x, "np": Sym("np", exp=sp.exp, iscomplex=lambda x: False), "xp": Sym("xp", exp=sp.exp)})
-        me = Sym("job", **{**src.init_defaults(THERMAL, "ThermalProp"), "h_mpo": Sym("h_mpo", model="<requested model>"), "energies": [sp.Symbol("E_first"), E], "space": "GS"})
+        it = SymInterp(src, _tp_resolver(src), {"Mpo": ns, "Quantity": lambda x, *a: x, "np": Sym("np", exp=sp.exp, iscomplex=lambda x: False), "xp": Sym("xp", exp=sp.exp)})
+        me = Sym("job", _cls="ThermalProp", **{**src.init_defaults(THERMAL, "ThermalProp"), "h_mpo": Sym("h_mpo", model="<requested model>"), "energies": [sp.Symbol("E_first"), E], "space": "GS"})
         it.call_function(fi_, [me, state, dt])
         got = [(k, st is state, (sp.simplify(sp.expand_log(ex, force=True)) if isinstance(ex, sp.Expr) else ex)) for k, st, ex in applied]
         ok = len(got) == 1 and got[0][1] and isinstance(got[0][2], sp.Expr) and sp.simplify(got[0][2] - ex_want) == 0
@@ -502,45 +508,6 @@ def run(chk):
     chk.rule("midpoint-reentry", "constant mean field with midpoint environment (abstract runs): the dispatcher is re-entered with half the step in the same time mode, refinements off, configuration restored", 4)
     from .chain_rules import cmf_midpoint_rule
     cmf_midpoint_rule(chk, src, "midpoint-reentry")
-    # ---- re-entrant evolution keeps the time mode
-    chk.rule("imag-reentry", "an evolver that converts an imaginary step to a real number passes an imaginary step again when it re-enters evolve()", 1)
-    n_re = 0
-    for (rel, qual), fi in sorted(src.funcs.items()):
-        if rel != MPS or fi.parent is not None or not fi.name.startswith("_evolve_"):
-            continue
-        dtname = fi.params()[2] if len(fi.params()) > 2 else None
-        rebinds = [n for n in ast.walk(fi.node) if isinstance(n, ast.Assign) and isinstance(n.targets[0], ast.Name) and n.targets[0].id == dtname and ".imag" in unparse(n.value)]
-        if not rebinds:
-            continue
-        calls = [c for c in ast.walk(fi.node) if isinstance(c, ast.Call) and unparse(c.func) in ("self.evolve",) and len(c.args) >= 2 and c.lineno > rebinds[0].lineno]
-        for c in calls:
-            n_re += 1
-            tau = sp.Symbol("tau", positive=True)
-            t = sp.Symbol("t", positive=True)
-
-            def ev(e, imag):
-                if isinstance(e, ast.IfExp):
-                    tt = unparse(e.test).replace(" ", "")
-                    if tt == "imag_time":
-                        return ev(e.body if imag else e.orelse, imag)
-                    if tt == "notimag_time":
-                        return ev(e.orelse if imag else e.body, imag)
-                    raise AnalysisError(f"{fi.where}: condition {tt} in a re-entrant step")
-                if isinstance(e, ast.BinOp):
-                    a, b_ = ev(e.left, imag), ev(e.right, imag)
-                    return {ast.Add: lambda: a + b_, ast.Sub: lambda: a - b_, ast.Mult: lambda: a * b_, ast.Div: lambda: a / b_}[type(e.op)]()
-                if isinstance(e, ast.UnaryOp) and isinstance(e.op, ast.USub):
-                    return -ev(e.operand, imag)
-                return C09.scalar_sym(e, {dtname: tau if imag else t})
-            vi = sp.simplify(ev(c.args[1], True))
-            vr = sp.simplify(ev(c.args[1], False))
-            ok = sp.re(vi) == 0 and sp.im(vi).is_negative and sp.im(vr) == 0
-            chk.ob("imag-reentry", f"{qual}: {norm_stmt(c, 70)}", bool(ok), fi.where, {"imaginary-time mode passes": str(vi), "real-time mode passes": str(vr)},
-                   "imaginary mode: -i * (positive) ; real mode: real", line=c.lineno,
-                   detail=f"{qual} has replaced its imaginary step by the real number tau and re-enters evolve() with it: the inner evolution runs in real time "
-                          f"(for CMF: the mean field at t/2 is wrong and the scheme loses an order)")
-    if n_re == 0:
-        raise AnalysisError("no re-entrant evolve() call after an imaginary-step conversion found (anchor moved)")
     # ---- normalisation in evolve: abstract run of the two dispatchers with the scheme stubbed, for a real and an imaginary step, normalize on / off
     from ..syminterp import SymInterp, Sym, Blob, SymDict
     for rel, qual in ((MPS, "Mps.evolve"), (TREE, "TTNS.evolve")):
